@@ -38,6 +38,60 @@ def wordValueAt (isPrint : Int → Bool) (buf : Bytes) (pos : Nat) : Option (Byt
     | none => none
   | _ => none
 
+/-- The text of a simple command line up to the word being completed:
+`w₀ ␣ w₁ ␣ … ␣ wₖ₋₁ ␣` — every word as `QuoteAs` writes it for a string and a
+preferred style (so: a bareword made of runes that are bareword runes in every
+context and not starting with `~`, a single-quoted string, or a double-quoted
+string), each followed by one space.  `[]` is the empty line (the word being
+completed is then the command itself). -/
+def lineText (isPrint : Int → Bool) : List (Bytes × Int) → Bytes
+  | [] => []
+  | w :: ws => (QuoteAs isPrint w.1 w.2).1 ++ 32 :: lineText isPrint ws
+
+/-- The commands of the current pipeline before the current one: each a
+non-empty simple command line (its words, one space after each) followed by
+`| ` — `cat f | sort | …`. -/
+def pipeText (isPrint : Int → Bool) (fs : List (List (Bytes × Int))) : Bytes :=
+  fs.flatMap fun ws => lineText isPrint ws ++ [124, 32]
+
+/-- The pipelines before the current one: each (earlier commands, last
+command) as above, followed by `; ` — `cd d ; cat f | sort ; …`. -/
+def chunkText (isPrint : Int → Bool) (ps : List (List (List (Bytes × Int)) × List (Bytes × Int))) : Bytes :=
+  ps.flatMap fun p => pipeText isPrint p.1 ++ (lineText isPrint p.2 ++ [59, 32])
+
+/-- every earlier command of a script has at least one word -/
+def ScriptOk (ps : List (List (List (Bytes × Int)) × List (Bytes × Int))) : Prop :=
+  ∀ p ∈ ps, p.2 ≠ [] ∧ ∀ ws ∈ p.1, ws ≠ []
+
+/-- One nesting level of a buffer: earlier pipelines, earlier commands of the
+current pipeline, words of the current command. -/
+abbrev Frame := List (List (List (Bytes × Int)) × List (Bytes × Int)) × List (List (Bytes × Int)) × List (Bytes × Int)
+
+def frameText (isPrint : Int → Bool) (fr : Frame) : Bytes :=
+  chunkText isPrint fr.1 ++ (pipeText isPrint fr.2.1 ++ lineText isPrint fr.2.2)
+
+def FrameOk (fr : Frame) : Prop := ScriptOk fr.1 ∧ ∀ ws ∈ fr.2.1, ws ≠ []
+
+/-- what opens a nesting level: `(` (an output capture) or `{ ` (a lambda without parameters) -/
+def opener (lambda : Bool) : Bytes := if lambda then [123, 32] else [40]
+
+/-- The text before the word being completed when the current command sits
+inside output captures and lambdas: every outer level is a script of simple
+commands followed by `(` or `{ `, the innermost level is such a script —
+`if $c { echo (cat f | head (ls `. -/
+def nestText (isPrint : Int → Bool) (outer : List (Frame × Bool)) (inner : Frame) : Bytes :=
+  outer.flatMap (fun p => frameText isPrint p.1 ++ opener p.2) ++ frameText isPrint inner
+
+/-- a redirection sign: one or more of `<`, `>` (`<`, `>`, `>>`, `<>`, …) -/
+def SignRunes (rs : List Nat) : Prop := rs ≠ [] ∧ ∀ r ∈ rs, r = 60 ∨ r = 62
+
+/-- the optional blank after the sign -/
+def blank (sp : Bool) : Bytes := if sp then [32] else []
+
+/-- a redirection sign and the optional blank after it: what precedes the
+file name in `sort < fo`, `ls >>fo` -/
+def redirText (rs : List Nat) (sp : Bool) : Bytes := encodeRunes rs ++ blank sp
+
 /-- `generateFileNames` as a specification: the entries of the directory that
 start with the typed file-name prefix and have its hiddenness (and pass the
 executable-or-directory filter of command position), as candidate stems:
